@@ -774,6 +774,38 @@ def _write_overrides(chk: Check) -> None:
                       " -> ".join(cfg.describe_path(wit)) if wit else "-"), 2)
 
 
+def _store_bound_once(chk: Check) -> None:
+    """the wrapped store is made once, by the constructor (a subclass may hand the base a store of
+    another kind - the symbolic-expression mapping is a SortedDict): no other method binds
+    ``self._data`` again.  Rebinding replaces a store of the right kind by a plain one and
+    leaves every alias of the old store behind"""
+    repo = chk.repo
+    roots = [repo.cls("SetWrapper"), repo.cls("ListWrapper"), repo.cls("DictWrapper")]
+    n = 0
+    for c in {k for r in roots for k in [r] + repo.subclasses(r)}:
+        for mname, f in c.methods.items():
+            if mname == "__init__":
+                continue
+            me = f.self_name or "self"
+            for x in walk_no_nested(f.node):
+                tg = []
+                if isinstance(x, ast.Assign):
+                    tg = [t for t in x.targets]
+                elif isinstance(x, (ast.AnnAssign, ast.AugAssign)):
+                    tg = [x.target]
+                elif isinstance(x, ast.Delete):
+                    tg = list(x.targets)
+                flat = [y for t in tg for y in ([t] if not isinstance(t, (ast.Tuple, ast.List)) else t.elts)]
+                for t in flat:
+                    if attr_path(t) == (me, "_data"):
+                        n += 1
+                        chk.saw(f)
+                        chk.ob("R16.7", "%s.%s:store-bound-once" % (c.qualname, mname), False, f.loc(x),
+                               "%s.%s binds self._data again (%s): the store the constructor made - of the kind the "
+                               "collection needs - is replaced" % (c.qualname, mname, unparse(x)[:50]), 1)
+    chk.extra["store_rebinds"] = n
+
+
 def _list_write_overrides(chk: Check) -> None:
     """a subclass of ListWrapper that redefines a storing primitive still performs it through the
     inherited one on every path that returns normally, and turns away nothing the built-in list
@@ -936,6 +968,7 @@ def _delegation_table(chk: Check) -> None:
     _observer_overrides(chk)
     _write_overrides(chk)
     _list_write_overrides(chk)
+    _store_bound_once(chk)
     # operators are the mixins' business: a collection class that defines one itself must be in the
     # table of operators whose bodies are checked (R16.8)
     ops = {"__ior__", "__iand__", "__ixor__", "__isub__", "__iadd__", "__imul__", "__and__", "__xor__", "__sub__",
